@@ -235,8 +235,18 @@ def r2(ctx):
     for c in encs:
         if len(c.args) != 4:
             ctx.undecided("C01.R2", to, "encrypt_gcm arity")
+        def whole_header(e, at):
+            """the serialised header itself, or a slice of it that covers all SIZE bytes -> the to_bytes() call node"""
+            e = resolve_arg(to, e, at)
+            if isinstance(e, ast.Call) and norm(e.func).endswith("hdr.to_bytes"):
+                return e
+            b_ = slice_bounds(e) if isinstance(e, ast.Subscript) else None
+            if b_ is not None and (b_[1] is None or fold_int(ctx, to, b_[1]) == 0) and b_[2] is not None and fold_int(ctx, to, b_[2]) == SIZE:
+                return whole_header(e.value, at)
+            return None
         iv, aad = resolve_arg(to, c.args[1], c), resolve_arg(to, c.args[2], c)
-        ok_aad = isinstance(aad, ast.Call) and norm(aad.func).endswith("hdr.to_bytes")
+        aad_src = whole_header(c.args[2], c)
+        ok_aad = aad_src is not None
         ctx.check(ok_aad, "C01.R2", to, "seal: aad == hdr.to_bytes()", "the whole serialised header is the AAD",
                   witness=norm(aad), line=c.lineno)
         sb = slice_bounds(iv)
@@ -256,9 +266,8 @@ def r2(ctx):
             for r in walk_own(to.node):
                 if isinstance(r, ast.Return) and isinstance(r.value, ast.BinOp) and isinstance(r.value.op, ast.Add) \
                         and norm(r.value.right) == ct:
-                    left = resolve_arg(to, r.value.left, r)
-                    ok = isinstance(left, ast.Call) and norm(left.func).endswith("hdr.to_bytes") and \
-                        norm(r.value.left) == norm(c.args[2])
+                    left = whole_header(r.value.left, r)
+                    ok = left is not None and left is aad_src
         ctx.check(ok, "C01.R2", to, "seal: datagram == aad header + ciphertext", "the bytes sent are the authenticated header followed by the ciphertext",
                   line=c.lineno)
 
